@@ -63,8 +63,12 @@ def sync(scratch, crates=CRATES):
         pass  # Kani uses its own pinned toolchain; the repo's toolchain file is not copied
 
 
-def weave(scratch, cfg, contracts_dir):
-    """Apply cfg['weave'] and cfg['module'] entries. Returns a summary dict."""
+def weave(scratch, cfg, contracts_dir, only_modules=None):
+    """Apply cfg['weave'] and cfg['module'] entries. Returns a summary dict.
+
+    only_modules: optional set of module source basenames (without .rs); when given, only those
+    harness modules (plus modules marked `shared = true`) are woven -- used to isolate a harness
+    module that no longer compiles against the working tree from the ones that still do."""
     inserted = {}  # file -> list of inserted line texts
     by_file = {}
     for w in cfg.get("weave", []):
@@ -92,6 +96,9 @@ def weave(scratch, cfg, contracts_dir):
             text = text[:pos] + block + text[pos:]
         open(path, "w").write(text)
     for mod in cfg.get("module", []):
+        base = os.path.splitext(os.path.basename(mod["source"]))[0]
+        if only_modules is not None and base not in only_modules and not mod.get("shared"):
+            continue
         rel = mod["file"]
         path = os.path.join(scratch, rel)
         if not os.path.exists(path):
